@@ -500,7 +500,97 @@ def r5_worker_queue(ctx, F, rule='C19-R5', with_join=True):
                         movers.append(c.bb)
                         ok = True
                 r = w.reach([cc.target], cut_blocks=movers)
-                ctx.check(ok and cc.bb not in r, rule, 'processed-queue-handed-back', w,
+                handed_back = ok and cc.bb not in r
+                if not handed_back and qof(cc.args[3]) is None:
+                    # the block may be run on one of several queues, chosen by a flag (`let block = if in_place
+                    # { &mut pending } else { &mut targetted }`): per choice, either that queue is the one every
+                    # other choice is appended to, or it is appended back on the paths that chose it
+                    cur = cc.args[3]['place']['l'] if cc.args[3]['k'] in ('copy', 'move') else None
+                    refs = []
+                    for _ in range(4):
+                        refs = [d for d in w.defs.get(cur, []) if d[1] != 'call' and d[2]['rv']['k'] == 'ref' and
+                                not d[2]['lhs']['p']] if cur is not None else []
+                        if len(refs) == 1 and refs[0][2]['rv']['place']['p'] == ['deref']:
+                            cur = refs[0][2]['rv']['place']['l']
+                            continue
+                        break
+                    def queue_of_place(pl, depth=0):
+                        if not pl['p']:
+                            return pl['l'] if pl['l'] in queues else None
+                        if pl['p'] == ['deref'] and depth < 4:
+                            ds_ = [d for d in w.defs.get(pl['l'], []) if d[1] == 'call' or not d[2]['lhs']['p']]
+                            if len(ds_) == 1 and ds_[0][1] != 'call' and ds_[0][2]['rv']['k'] == 'ref':
+                                return queue_of_place(ds_[0][2]['rv']['place'], depth + 1)
+                        return None
+                    choices = [(d[0], queue_of_place(d[2]['rv']['place'])) for d in refs]
+                    choices = [(i, q) for (i, q) in choices if q is not None]
+                    per = {}
+                    if len(choices) >= 2 and len(choices) == len(refs):
+                        named = set(d['place']['l'] for d in w.j['debug'] if not d['place']['p'])
+
+                        def raw_flag(bb):
+                            """(user variable, parity) a bool SwitchInt tests: the variable must be assigned once"""
+                            t = w.blocks[bb]['term']
+                            d = t.get('discr', {})
+                            if d.get('k') not in ('copy', 'move') or d['place']['p']:
+                                return None
+                            l, par = d['place']['l'], 0
+                            for _ in range(6):
+                                ds_ = w.defs.get(l, [])
+                                if len(ds_) != 1:
+                                    return None
+                                if l in named:
+                                    return (l, par)
+                                if ds_[0][1] == 'call':
+                                    return None
+                                rv_ = ds_[0][2]['rv']
+                                o_ = rv_.get('op') if rv_['k'] == 'use' else rv_.get('a') if rv_['k'] == 'un' and \
+                                    rv_.get('op') == 'Not' else None
+                                if not isinstance(o_, dict) or o_.get('k') not in ('copy', 'move') or o_['place']['p']:
+                                    return None
+                                par ^= 1 if rv_['k'] == 'un' else 0
+                                l = o_['place']['l']
+                            return None
+
+                        def raw_targets(bb, discr_is_zero):
+                            t = w.blocks[bb]['term']
+                            zero = [tb for (val, tb) in t['targets'] if val == 0]
+                            return set(zero) if discr_is_zero else {t['otherwise']}
+                        flagged = dict((sw.bb, raw_flag(sw.bb)) for sw in w.switches if sw.kind == 'bool')
+                        flagged = dict((k, v) for k, v in flagged.items() if v is not None)
+                        for (i, q) in choices:
+                            allowed = {}
+                            for bb_, (fl, par) in flagged.items():
+                                if not w.dominates(bb_, i):
+                                    continue
+                                for fval in (0, 1):
+                                    ts = raw_targets(bb_, (fval ^ par) == 0)
+                                    oth = raw_targets(bb_, (fval ^ par) != 0)
+                                    if w.edges_dominate([(bb_, t_) for t_ in ts], i) and \
+                                            not w.edges_dominate([(bb_, t_) for t_ in oth], i):
+                                        # this choice is made under flag == fval: so are the later tests of it
+                                        for b2, (fl2, par2) in flagged.items():
+                                            if fl2 == fl and w.dominates(cc.bb, b2):
+                                                allowed[b2] = raw_targets(b2, (fval ^ par2) == 0)
+                            mv = [c for c in app if qof(c.args[1]) == q]
+                            cutb = set(c.bb for c in mv)
+                            seen_, todo_ = {cc.target}, [cc.target]
+                            while todo_:
+                                x_ = todo_.pop()
+                                if x_ in cutb:
+                                    continue
+                                for t_ in w.succ[x_]:
+                                    if x_ in allowed and t_ not in allowed[x_]:
+                                        continue
+                                    if t_ not in seen_:
+                                        seen_.add(t_)
+                                        todo_.append(t_)
+                            r_i = seen_
+                            per[q] = (bool(mv) and cc.bb not in r_i, set(qof(c.args[0]) for c in mv))
+                        for h in per:
+                            if all(q == h or (ok_q and dst == {h}) for q, (ok_q, dst) in per.items()):
+                                handed_back = True
+                ctx.check(handed_back, rule, 'processed-queue-handed-back', w,
                           good='after a block the remaining/new jobs are appended back to `pending`',
                           bad='on-demand worker: jobs left in the processed queue are not appended back to '
                               '`pending` before the next block')
